@@ -59,6 +59,7 @@ fn run_case(case: &Case, out: &mut Out) {
     "flatten" => suites::flatten_suite::run(case, out),
     "convert" => suites::convert_suite::run(case, out),
     "share" => suites::share_suite::run(case, out),
+    "multi" => suites::multi_suite::run(case, out),
     s => panic!("unknown suite {}", s),
   }
 }
